@@ -311,12 +311,14 @@ func (w *bWorld) pool() (perms, dis, junk []string) {
 	p3, _ := macaroon.New([]byte("k1"), bLocs[0], w.keys["k1"])
 	p3.Add(&flyio.Organization{ID: 1, Mask: resset.ActionAll})
 	p3.Add3P(w.tpKeys["other-tp1"], bLocs[1]) // a tp1 ticket that tp1's key cannot open
+	p4, _ := macaroon.New([]byte("k1"), bLocs[0], w.keys["k1"])
+	p4.Add(&flyio.Organization{ID: 2, Mask: resset.ActionAll}) // clears only requests about organisation 2
 	p1a, _ := p1.Clone()
 	p1a.Add(&rd) // attenuated variant of p1
 	pbad := mk("k1", macaroon.NewSigningKey(), bLocs[0])       // wrongly keyed
 	punk := mk("zz", w.keys["k1"], bLocs[0])                   // unknown key-id
 	pforeign := mk("k1", w.keys["k1"], bLocs[3])               // foreign location: never a permission token
-	perms = []string{str(p0), str(p1), str(p2), str(p1a), str(pbad), str(punk), str(p3)}
+	perms = []string{str(p0), str(p1), str(p2), str(p1a), str(pbad), str(punk), str(p3), str(p4), str(p4)}
 	d1 := discharge(p1, bLocs[1], w.tpKeys[bLocs[1]])
 	d2a := discharge(p2, bLocs[1], w.tpKeys[bLocs[1]], &rd)
 	d2b := discharge(p2, bLocs[2], w.tpKeys[bLocs[2]])
@@ -462,7 +464,41 @@ func genBundle(c *ctx, cached bool) {
 			}
 			return s
 		}
-		parse()
+		parseHdr := func(hdr string) uint64 {
+			s := newSlot()
+			hdrs = append(hdrs, hdr)
+			ts := toksOf(hdr)
+			b, err := bundle.ParseBundle(bLocs[0], hdr)
+			w.slots[s] = b
+			rec(coqw.App("BParse", coqw.N(s), ts), []int64{b2i64x(err == nil)})
+			return s
+		}
+		verifyCached := func(s uint64) {
+			b := w.slots[s]
+			w.recordDirect(b)
+			w.innerLog = nil
+			sets, _ := b.Verify(context.Background(), w.caches[0])
+			var ids []uint64
+			for _, set := range sets {
+				ids = append(ids, w.csID(set))
+			}
+			lg := append([]uint64{}, w.innerLog...)
+			sort.Slice(lg, func(a, b int) bool { return lg[a] < lg[b] })
+			rec(coqw.App("BVerifyCached", coqw.N(s), coqw.N(0)), append(zl(ids), zl(lg)...))
+		}
+		if cached && r.P(1, 4) {
+			// the same permission token with discharges that share a nonce but differ in caveats / signature
+			order := []string{w.sameNonce[0], w.sameNonce[1], w.sameNonce[2]}
+			r3 := r.Fork()
+			sort.Slice(order, func(a, b int) bool { return r3.Bool() })
+			for _, d := range order {
+				s := parseHdr(perms[1] + "," + d)
+				verifyCached(s)
+				rec(coqw.App("BValidate", coqw.N(s), coqw.N(0)), []int64{b2i64x(w.slots[s].Validate(w.reqs[0]) == nil)})
+			}
+		} else {
+			parse()
+		}
 		steps := 4 + r.Intn(8)
 		for k := 0; k < steps; k++ {
 			s := uint64(r.Intn(int(nslots)))
